@@ -21,7 +21,7 @@ HRPS = ['bc', 'tb', 'bcrt', 'x', 'a1z']
 
 def bounds(tier):
     return dict(step='all 30-bit states and 5-bit values', detect='data-part lengths 39 and 59 (P2WPKH/P2WSH): every position set of size 1, 2%s; '
-                'error values symbolic (all 31^k non-zero patterns per set)' % ('' if tier == 'quick' else ', 3 (all sets at lengths 39 and 59) and 4 (length 39, every 10th set in lexicographic order)'),
+                'error values symbolic (all 31^k non-zero patterns per set)' % ('' if tier == 'quick' else ', 3 (all sets at lengths 39 and 59) and 4 (length 39, every 2nd set in lexicographic order)'),
                 codec='hrp in %s, versions 0..16, program lengths 2..40, all program bytes symbolic' % HRPS,
                 accept='all strings of length 8..%d over all code points under each of bc/tb/bcrt; address-length strings with symbolic data part'
                        % 12)
@@ -238,13 +238,13 @@ def instances(tier):
     # error detection by position sets
     plan = [(39, 'bc', 1), (39, 'bc', 2), (59, 'bc', 1), (59, 'bc', 2), (39, 'tb', 2), (59, 'bcrt', 2)]
     if tier != 'quick':
-        plan += [(39, 'bc', 3), (59, 'bc', 3)]
+        plan += [(39, 'bc', 3), (59, 'bc', 3), (59, 'tb', 3)]
     for n, hrp, k in plan:
         sets = [list(c) for c in itertools.combinations(range(n), k)]
         for ch in _chunks(sets, 400):
             out.append(dict(h='detect_batch', p=dict(n=n, hrp=hrp, sets=ch), witness_every=0, keep_witnesses=0, max_seconds=3000))
     if tier != 'quick':
-        sets = [list(c) for c in itertools.islice(itertools.combinations(range(39), 4), 0, None, 10)]
+        sets = [list(c) for c in itertools.islice(itertools.combinations(range(39), 4), 0, None, 2)]
         for ch in _chunks(sets, 400):
             out.append(dict(h='detect_batch', p=dict(n=39, hrp='bc', sets=ch), witness_every=0, keep_witnesses=0, max_seconds=3000))
     for pos in ([0], [3, 9], [1, 2, 11], [0, 5, 6, 12]):
